@@ -2,5 +2,5 @@ CONSTANTS
   MaxPresence = @MAXP@
 INIT Init
 NEXT Next
-INVARIANTS LayoutOK ShapeOK VerdictOK
+INVARIANTS ShapeOK VerdictOK
 CHECK_DEADLOCK FALSE
